@@ -206,6 +206,7 @@ def check(chk: Check) -> None:
 
     _r7(chk, R7)
     _r8(chk)
+    _r9(chk)
 
 
 def reserved_unused_words(F, lm) -> Set[str]:
@@ -545,3 +546,65 @@ def _token_rules_cannot_underflow(chk: Check, R2: str) -> None:
                             'guarded against an empty state stack' if guarded else
                             'pop_state() on an empty state stack raises IndexError inside token(): a closing construct without its opener '
                             '(a stray bracket) escapes as IndexError instead of a ParserError')
+
+
+def _r9(chk: Check) -> None:
+    """A `finally` block runs while an exception (typically the ParserError the program earned) is in flight.  If the block
+    itself fails, its error replaces that exception.  So a finally block reachable from parse / eval / list_names must not
+    look anything up that may be missing, and a numeral rule must not accept text the Decimal constructor rejects."""
+    F = chk.facts
+    R9 = chk.rule('C16.R9', 'error paths cannot be derailed: no keyed read / delete that can raise LookupError inside a finally block '
+                            'reachable from the entry points or an eval method (it would replace the ParserError in flight), and the '
+                            'numeral rule matches only text the Decimal constructor accepts (no exponent part)', floor=2)
+    chk.decided += ['cleanup code and literal conversion cannot turn a ParserError into something else (R9)']
+    from .c02 import entry_units
+    n_fin = 0
+    for label, fi, _ in entry_units(chk):
+        try:
+            paths = SymExec(F, fi).run()
+        except AnalysisError:
+            continue
+        allp = list(paths)
+        for c in om.all_closures(paths):
+            allp += closure_paths(F, fi, c)
+        bad = {}
+        saw_finally = False
+        for p in allp:
+            for e in p.events:
+                fins = e.in_ctx('finally')
+                if not fins:
+                    continue
+                saw_finally = True
+                if e.kind in ('load_sub', 'del_sub'):
+                    # guarded by a handler *inside* the finally block?
+                    inner_try = [c for c in e.ctx if c[0] == 'try' and e.ctx.index(c) > max(i for i, x in enumerate(e.ctx) if x[0] == 'finally')]
+                    if any(common.catches(F, types, ['KeyError', 'IndexError']) for c in inner_try for types, _ in c[2]):
+                        continue
+                    idx = freeze(e.index)
+                    if is_const(idx) and isinstance(idx[1], int) and e.kind == 'load_sub' and False:
+                        continue
+                    # `if k in d: del d[k]` is fine
+                    guard = ('cmp', 'in', idx, freeze(e.obj))
+                    if any(c == guard and v for c, v, _ in p.assumptions):
+                        continue
+                    bad['`%s`' % e.text()] = e.line
+        if saw_finally:
+            n_fin += 1
+            chk.require(not bad, R9, '%s :: finally blocks' % label, fi.where,
+                        '; '.join('%s (line %d) can raise KeyError/IndexError while another exception is in flight: that error replaces the '
+                                  'ParserError the program should get' % (k, v) for k, v in sorted(bad.items())[:3]) or
+                        'nothing in a finally block can raise a lookup error')
+    if n_fin == 0:
+        chk.ok(R9, 'finally blocks', 'smartquery/*.py', 'no finally block on the paths of the entry points, eval methods and builtins')
+    # the numeral rule
+    lm = C.lexmodel(F)
+    from .c08 import number_token
+    from .. import lexmodel as LM
+    NUM = number_token(lm)
+    rm = lm.rules[NUM]
+    where = '%s:%d' % (lm.spec.module.rel, rm.rule.line)
+    odd = [ch for ch in 'eEnNiIfFaA_' if LM.can_contain(rm.parsed, ch)]
+    chk.require(not odd, R9, 't_%s accepts only digits and a point' % NUM, where,
+                'the numeral regex can match %s: text like 1e1000000000000000000 (or nan / inf / 1_0) is accepted by the lexer but '
+                'Decimal() raises InvalidOperation or builds a non-number: the error escapes from token() as a non-ParserError'
+                % ', '.join(repr(c) for c in odd) if odd else 'digits and an optional fraction: every match is a valid Decimal literal')
